@@ -299,6 +299,33 @@ func packenvBigDir(c *Ctx, op string) {
 	} else if ga != want {
 		c.PropFail("pack-env", fmt.Sprintf("a fileset with a directory of %d entries packs to %s; the reference tree hash of the whole fileset is %s", n, ga, want), op)
 	}
+	// C02 through the walk: pack into a warehouse, unpack, compare the trees entry for entry (ids that agree with each
+	// other prove nothing about entries that never reached the pack)
+	{
+		wh, dst := filepath.Join(base, "wh"), filepath.Join(base, "back")
+		os.MkdirAll(wh, 0755)
+		os.Setenv("RIO_CACHE", filepath.Join(base, "cache"))
+		id, err, pan := safeCall(func() (api.WareID, error) {
+			return tartrans.Pack(context.Background(), "tar", a, pf, whAddr("ca", wh), rio.Monitor{})
+		})
+		if err == nil && pan == "" {
+			_, err2, pan2 := safeCall(func() (api.WareID, error) {
+				return tartrans.Unpack(context.Background(), id, dst, api.MustParseFilesetUnpackFilter(losslessUnpackStr), rio.Placement_Direct, []api.WarehouseLocation{whAddr("ca", wh)}, rio.Monitor{})
+			})
+			if err2 != nil || pan2 != "" {
+				c.PropFail("roundtrip-tree", fmt.Sprintf("a fileset with a directory of %d entries packs but does not unpack: %v %s", n, err2, pan2), op)
+			} else if s0, e0 := Snapshot(a); e0 == nil {
+				if s1, e1 := Snapshot(dst); e1 != nil || s0.Digest(true) != s1.Digest(true) {
+					d := DiffFilesets(s0, s1, true)
+					if len(d) > 300 {
+						d = d[:300] + "…"
+					}
+					c.PropFail("roundtrip-tree", fmt.Sprintf("a fileset with a directory of %d entries does not come back from pack + unpack: %d entries in, %d out: %s", n, len(s0), len(s1), d), op)
+				}
+			}
+		}
+		rmrf(dst)
+	}
 	// C04 through the walk: a change to any one of the entries (bytes of the same length, a permission bit, presence)
 	// changes the id — wherever the entry sits in the kernel's listing order
 	if strings.HasPrefix(ga, "ok ") {
